@@ -119,8 +119,8 @@ structure MonState where
   snapPending : Nat := 0
   snapInflight : Nat := 0
   snapCollision : Bool := false
-  /-- id parked by the last `AwaitAck` notification (`MqttState.collision` survives `clean()`:
-      the parked publish is written by the ack handler of a later connection) -/
+  /-- id parked by the last `AwaitAck` notification (until the ack handler writes the parked
+      publish, or `clean()` moves it into `pending`) -/
   parked : Option Nat := none
   /-- the broker released the parked id with a PUBCOMP (not a PUBACK) -/
   parkedByComp : Bool := false
@@ -257,17 +257,23 @@ def monStep (m : MonState) : Item → MonState × Fails
       -- C07 select gate: a publish that appears for the first time was taken from the channel
       -- (unless it is the one parked by AwaitAck, written by the ack handler)
       let fresh := known.isNone && !(m.carried.contains tag)
-      let isParked := fresh && m.parked == some id
+      -- the publish parked by the last AwaitAck (first time on the wire, on the parked id); it may be
+      -- a carried-over request that was parked again during the replay: it left `expect` when it
+      -- was handed over (AwaitAck), the ack handler writes it
+      let isParked := known.isNone && m.parked == some id
       let gateFail : Fails :=
         if fresh && !isParked && m.expect.isEmpty && m.snapPending == 0 &&
             (decide (m.snapInflight ≥ m.max) || m.snapCollision) then
           [("loop-gate", s!"request {tag} taken at {t} with inflight={m.snapInflight} max={m.max} collision={m.snapCollision}")]
         else []
       -- C11/C02 resume: carried-over requests first, in the order `clean` kept them
+      -- (the publish parked by AwaitAck before the failure is older than anything merely queued:
+      -- the ack handler writing it ahead of carried-over new requests is the original order)
       let (expect', orderFail) : List Req × Fails :=
         match m.expect with
         | e :: es =>
-          if sameReq e (.publish q id tag) then (es, [])
+          if isParked then (m.expect, [])
+          else if sameReq e (.publish q id tag) then (es, [])
           else if m.expect.any (sameReq (.publish q id tag)) then
             (m.expect.filter (fun r => !sameReq r (.publish q id tag)),
              [("loop-order", s!"{showReq (.publish q id tag)} written before carried-over {showReq e} replay-interrupted={m.replayInterrupted}")])
@@ -406,7 +412,10 @@ def monStep (m : MonState) : Item → MonState × Fails
     ({ m0 with connected := false, attempt := none, connackAt := none, outstanding := none,
                expect := pending, carried := carried, toSurface := [],
                staleSurface := if m.connected then m.toSurface else m.staleSurface,
-               replayInterrupted := if m.connected then !m.expect.isEmpty else m.replayInterrupted },
+               replayInterrupted := if m.connected then !m.expect.isEmpty else m.replayInterrupted,
+               -- `clean()` empties the collision slot (the parked publish is carried over in `pending`)
+               parked := if m.connected then none else m.parked,
+               parkedByComp := if m.connected then false else m.parkedByComp },
      f18 ++ fLost)
   | .snap _ p i c _ => ({ m with snapPending := p, snapInflight := i, snapCollision := c }, [])
   | .runEnd t => (m, checkIdle m t)
